@@ -54,6 +54,14 @@ fn main() {
         println!("{}", compose::render_js(&p.marked));
         return;
     }
+    #[cfg(feature = "native")]
+    if id == "show-c10" {
+        // tsverif show-c10 <family> <context> <n>
+        let c = args.get(3).cloned().unwrap_or_else(|| "top".into());
+        let n: usize = args.get(4).and_then(|x| x.parse().ok()).unwrap_or(3);
+        checks::c10::show(&cmd, &c, n);
+        return;
+    }
     if id == "leak-probe" {
         // tsverif leak-probe <file.js> : live objects after collect over 8 runs on one interpreter
         let src = std::fs::read_to_string(&cmd).expect("read");
